@@ -19,6 +19,8 @@ func init() {
 		{Name: "printer swallows every export that targets an inline-exported function", File: "internal/wat/printer/printer_export.go", Old: "if fn.ExportName != \"\" && fn.Name == e.FuncIdx && fn.ExportName == e.Name {", New: "if fn.ExportName != \"\" && fn.Name == e.FuncIdx {", Expect: "roots-survive-printing :: printExport: skip only the function's own inline export"},
 		{Name: "printer takes an export named \"\" for the inline export of a function without one", File: "internal/wat/printer/printer_export.go", Old: "if fn.ExportName != \"\" && fn.Name == e.FuncIdx && fn.ExportName == e.Name {", New: "if fn.Name == e.FuncIdx && fn.ExportName == e.Name {", Expect: "roots-survive-printing :: printExport: skip only the function's own inline export"},
 		{Name: "roots searched among the module's own functions only", File: "internal/wat/watutil/watstrip/remove_unused.go", Old: "\tfor _, importSpec := range p.m.Imports {\n\t\tif importSpec.ObjKind == token.FUNC {\n\t\t\tnames = append(names, importSpec.FuncName)\n\t\t}\n\t}\n\tfor _, fn := range p.m.Funcs {", New: "\tfor _, fn := range p.m.Funcs {", Expect: "function imports are looked at when roots are marked"},
+		{Name: "strip removes by name although a function is referenced by number", File: "internal/wat/watutil/watstrip/remove_unused.go", Old: "\tif p.hasIndexedFuncRef() {\n\t\treturn p.m\n\t}\n", New: "", Expect: "no removal when functions are referenced by index"},
+		{Name: "the index guard forgets element segments", File: "internal/wat/watutil/watstrip/remove_unused.go", Old: "\tfor _, elem := range p.m.Elem {\n\t\tfor _, elemValue := range elem.Values {\n\t\t\tif isIndex(elemValue) {\n\t\t\t\treturn true\n\t\t\t}\n\t\t}\n\t}\n", New: "", Expect: "no removal when functions are referenced by index"},
 		{Name: "strip ignores the start function root", File: "internal/wat/watutil/watstrip/remove_unused.go", Old: "if name == p.m.Start {", New: "if name == p.m.Name {", Expect: "root-completeness :: Module.Start"},
 		{Name: "strip does not recurse into else bodies", File: "internal/wat/watutil/watstrip/remove_unused.go", Old: "\t\tfor _, x := range ins.Else {\n\t\t\tp.markFuncReachable_ins(x)\n\t\t}\n", New: "", Expect: "edge-completeness :: Ins_If.Else"},
 		{Name: "strip does not recurse into loops", File: "internal/wat/watutil/watstrip/remove_unused.go", Old: "\tcase ast.Ins_Loop:\n\t\tfor _, x := range ins.List {\n\t\t\tp.markFuncReachable_ins(x)\n\t\t}\n", New: "", Expect: "edge-completeness :: Ins_Loop.List"},
@@ -121,28 +123,84 @@ func runC06(c *Ctx) {
 		// drops unmarked function imports, so it must look for the roots among them as well
 		c.Check(c06ImportRoots(info, dp), rRoot, "function imports are looked at when roots are marked", p.Pos(dp.Pos()), "the names compared with the roots include the imports' FuncName (or a loop over the imports marks)",
 			"DoPass looks for the start function, element-segment entries and function exports only among the module's own functions, but it drops every unmarked function import: an import that is exported, in a table or the start function is removed while the reference to it stays, and the stripped module no longer assembles")
+		// functions are marked and removed by name, and removal shifts the function index space: nothing may refer to
+		// a function by number and no function may be unnamed when the pass removes something
+		gFound, gMissing := c06IndexGuard(info, ws, dp)
+		c.Check(gFound && len(gMissing) == 0, rRoot, "no removal when functions are referenced by index", p.Pos(dp.Pos()), "DoPass returns the module unchanged when a function is unnamed or referenced by number",
+			map[bool]string{false: "DoPass has no guard that returns the module unchanged before it marks and removes by name", true: "the guard of DoPass does not look at " + strings.Join(gMissing, ", ")}[gFound]+": `(export \"x\" (func 0))` or an element entry given by number is not seen as a root, its function is removed and the indices of the others shift; unnamed functions share one entry of the function table")
 		if nm, early := funcLoopLeftEarly(info, p, dp); nm > 0 {
 			c.Check(len(early) == 0, rRoot, "loop over the module's functions runs to the end", p.Pos(dp.Pos()), "no return or break out of it after a mark", strings.Join(early, "; "))
 		}
 		// export roots must be restricted to kind FUNC only by an `== token.FUNC` test (not narrower)
 		okKind := false
+		// the test must guard the comparison with the export's function reference (an `== token.FUNC` elsewhere, say in
+		// the index guard, does not select the roots)
 		kindTest := func(n ast.Node) bool {
-			if be, ok := n.(*ast.BinaryExpr); ok && be.Op == token.EQL && strings.HasSuffix(types.ExprString(be.X), ".Kind") {
-				if k := constOfExpr(info, be.Y); k.Name == "FUNC" {
-					okKind = true
+			ifs, ok := n.(*ast.IfStmt)
+			if !ok {
+				return true
+			}
+			hasKind := false
+			ast.Inspect(ifs.Cond, func(m ast.Node) bool {
+				if be, ok := m.(*ast.BinaryExpr); ok && be.Op == token.EQL && strings.HasSuffix(types.ExprString(be.X), ".Kind") {
+					if k := constOfExpr(info, be.Y); k.Name == "FUNC" {
+						hasKind = true
+					}
 				}
+				return true
+			})
+			if !hasKind {
+				return true
+			}
+			marks, refs := false, false
+			ast.Inspect(ifs, func(m ast.Node) bool {
+				switch x := m.(type) {
+				case *ast.SelectorExpr:
+					if x.Sel.Name == "FuncIdx" {
+						refs = true
+					}
+				case *ast.CallExpr:
+					if f := CalleeOf(info, x); f != nil && f.Name() == "markFuncReachable" {
+						marks = true
+					}
+				case *ast.ReturnStmt:
+					if len(x.Results) == 1 && types.ExprString(x.Results[0]) == "true" {
+						marks = true // a root predicate answers true
+					}
+				}
+				return true
+			})
+			if refs && marks {
+				okKind = true
 			}
 			return true
 		}
 		ast.Inspect(dp.Body, kindTest)
 		// … or in a function of the package that DoPass calls (a root predicate)
-		for _, call := range callsIn(info, dp.Body.List) {
-			if fn := CalleeOf(info, call); fn != nil && fn.Pkg() == ws.Types {
-				if hd := declOfFunc(ws, fn); hd != nil && hd.Body != nil {
-					ast.Inspect(hd.Body, kindTest)
+		// (a root predicate: the condition of an if whose body marks)
+		ast.Inspect(dp.Body, func(n ast.Node) bool {
+			ifs, ok := n.(*ast.IfStmt)
+			if !ok {
+				return true
+			}
+			marks := false
+			for _, call := range callsIn(info, ifs.Body.List) {
+				if f := CalleeOf(info, call); f != nil && f.Name() == "markFuncReachable" {
+					marks = true
 				}
 			}
-		}
+			if !marks {
+				return true
+			}
+			for _, call := range callsIn(info, []ast.Stmt{&ast.ExprStmt{X: ifs.Cond}}) {
+				if fn := CalleeOf(info, call); fn != nil && fn.Pkg() == ws.Types {
+					if hd := declOfFunc(ws, fn); hd != nil && hd.Body != nil {
+						ast.Inspect(hd.Body, kindTest)
+					}
+				}
+			}
+			return true
+		})
 		c.Check(okKind, rRoot, "ExportSpec.Kind == FUNC", p.Pos(dp.Pos()), "export roots are the exports of kind func", "export roots are not selected by Kind == token.FUNC")
 	}
 
